@@ -1,5 +1,49 @@
-(* C18 placeholder *)
-From Connectome Require Import Values NameSet NameLevel.
-Theorem C18_placeholder : True.
-Proof. exact I. Qed.
-Print Assumptions C18_placeholder.
+(* C18 — optional fields vanish quietly; required ones fail loudly and by name. *)
+From Connectome Require Import Values NameSet NameLevel NameFacts.
+Local Open Scope list_scope.
+
+(* the state of a field after compilation: available iff it reaches no missing input; dropped quietly iff it misses some
+   input, is optional itself and every missing input is asked for by optional fields only; otherwise an error *)
+Theorem C18_field_state :
+  forall b o,
+  (field_state b o = 0 <-> misses (snd o) = []) /\
+  (field_state b o = 1 <-> misses (snd o) <> [] /\ alookup (b_optout b) (fst o) = Some true /\ forallb snd (misses (snd o)) = true).
+Proof. exact field_state_spec. Qed.
+Print Assumptions C18_field_state.
+
+(* the pipeline is usable iff no field is in the error state; then it lists exactly the fields that miss nothing:
+   leaving a field out changes no other field *)
+Theorem C18_quiet_outcome :
+  forall b l, bag_outcome b = Fields l ->
+  (forall o, In o (b_outs b) -> field_state b o <> 2) /\
+  (forall n, In n l <-> exists e, In (n, e) (b_outs b) /\ misses e = []).
+Proof. exact outcome_fields. Qed.
+Print Assumptions C18_quiet_outcome.
+
+(* otherwise a DependencyError names a field with an unreachable input that is required: the field is not optional, or
+   one of the missing inputs is needed by a required user; and it names exactly the missing inputs of that field *)
+Theorem C18_loud_outcome :
+  forall b f ms, bag_outcome b = DepError f ms ->
+  exists e, In (f, e) (b_outs b) /\ misses e <> [] /\
+    (alookup (b_optout b) f <> Some true \/ forallb snd (misses e) = false) /\ ms = snodup_ (map fst (misses e)).
+Proof. exact outcome_error. Qed.
+Print Assumptions C18_loud_outcome.
+
+(* optional dependants of a dropped field are dropped in turn: substitution keeps MISSING leaves *)
+Theorem C18_missing_propagates : forall env e x o, In (x, o) (misses e) -> In (x, o) (misses (xsubst env e)).
+Proof.
+  intros env. fix IH 1. intros e x o H. destruct e as [y|y b|f args]; cbn in *; [destruct H|exact H|].
+  induction args as [|a args IHa]; cbn in *; [exact H|].
+  apply in_app_or in H. apply in_or_app. destruct H as [H|H]; [left; apply IH; exact H|right; apply IHa; exact H].
+Qed.
+Print Assumptions C18_missing_propagates.
+
+Example C18_example :
+  let mk defs opt := SLayer {| l_defs := defs; l_params := [("_p", ("par", ["c"]))]; l_inherit := Fin []; l_optional := opt; l_persistent := []; l_cache := false |} in
+  let first := SLayer {| l_defs := [("a", ("fa", []))]; l_params := []; l_inherit := Fin []; l_optional := []; l_persistent := []; l_cache := false |} in
+  (* x(b) is optional and b is missing: dropped quietly, y(a) stays *)
+  bag_outcome (stack_bag [first; mk [("x", ("fx", ["b"])); ("y", ("fy", ["a"]))] ["x"]]) = Fields ["y"] /\
+  (* the same, but x reaches c only through the used parameter _p: a used parameter is a required user *)
+  bag_outcome (stack_bag [first; mk [("x", ("fx", ["_p"])); ("y", ("fy", ["a"]))] ["x"]]) = DepError "x" ["c"].
+Proof. vm_compute. auto. Qed.
+Print Assumptions C18_example.
